@@ -138,11 +138,19 @@ def run(ctx):
                 s2, t2, f2 = oob[0]
                 su = jba.calls(r"builder::BuildJob::start_deps_unlocked")
                 ss = jba.calls(re.escape(anchors.start_self(prog).key))
-                ok = jba.edge_dominates((sw, nt), s2) and any(jba.edge_dominates((s2, f2), x) for x in su) and any(jba.edge_dominates((s2, t2), x) for x in ss) \
-                    and not any(jba.edge_dominates((s2, t2), x) for x in su)
+                # the no_oob test belongs to the NeedTargets verdict; behind it the two sides are exclusive and
+                # complete: !no_oob always delegates (start_deps_unlocked) and never builds here, no_oob always builds
+                # (start_self) and never delegates - whether start_self is written out on that side or shared with
+                # the Dirty arm (`NeedTargets(t) if !no_oob => .., Dirty | NeedTargets(_) => start_self`)
+                rets = jba.returns()
+                ok = jba.edge_dominates((sw, nt), s2) and bool(su) and bool(ss) and bool(rets) \
+                    and jba.path([f2], rets, avoid=frozenset(su), incl=True) is None and jba.path([f2], ss, incl=True) is None \
+                    and jba.path([t2], rets, avoid=frozenset(ss), incl=True) is None and jba.path([t2], su, incl=True) is None
             ctx.ob("R3.4", "%s|NeedTargets=>unlocked-unless-no_oob" % J.key, ok, where=ctx.where(J, sw),
                    detail="NeedTargets: no_oob => start_self, else start_deps_unlocked" if ok else "NeedTargets is not dispatched to redo-unlocked / start_self by no_oob")
-    sb = prog.one(r"@bin::ifchange::should_build")
+    # redo-ifchange's verdict callback is a role (fn item today, possibly a closure handed to builder::run): use the
+    # role anchor where the anchors module provides it
+    sb = anchors.ifchange_verdict(prog) if hasattr(anchors, "ifchange_verdict") else prog.one(r"@bin::ifchange::should_build")
     bba = BA.of(sb)
     idc = bba.calls(r"state::File::id")
     ln = bba.calls(r"alloc::vec::Vec::len")
